@@ -277,7 +277,7 @@ fn dfs<T: PrimInt + Debug>(
         if let Err(f) = step(&mut a2, &mut m2, *op, probes, sig) {
             return Err((f, trail.clone()));
         }
-        if m2.free_runs().len() >= 2 {
+        if trail.len() <= 5 && m2.free_runs().len() >= 2 {
             st.nontrivial(&(sig, m.lo, m.hi, format!("{trail:?}")));
         }
         dfs(&a2, &m2, ops, probes, depth - 1, trail, st, sig)?;
